@@ -347,3 +347,16 @@ def run(rep, programs):
     r_counter_first(rep, prog)
     r_blind_writes(rep, prog)
     r_toggle_guard(rep, prog)
+
+
+def r_undo_range(rep, prog):
+    import multicas
+    multicas.check_undo_range(rep, prog, "R-UNDO-RANGE", lib.need_body)
+
+
+_run0 = run
+
+
+def run(rep, programs):  # noqa: F811
+    _run0(rep, programs)
+    r_undo_range(rep, programs["core"])
